@@ -122,6 +122,49 @@ def coherentXB : List XStep → TxSt → Bool
     | (s1, true) => coherentXB rest s1
     | (sf, false) => noNestedSuccess g s && coherentXB rest ⟨s.o.revertTo sf.o, s.esc⟩
 
+/-! ### frames that fail AFTER completing keeper-level calls (round 4)
+
+`RevertToSnapshot` restores the native store but not `originStorage`: what matters is whether the values the frame LEFT in
+the origin cache are the values of the restored store. -/
+
+/-- every value the state `cur` (the point of failure) holds in its origin cache is the value the snapshot's native store
+holds for that slot -/
+def OriginAgrees (snap cur : Outer) : Prop := ∀ k w, lookup k cur.origin = some w → snap.store k = w
+
+def originAgreesB (snap cur : Outer) : Bool :=
+  cur.origin.all fun kv => match lookup kv.1 cur.origin with
+    | some w => snap.store kv.1 == w
+    | none => true
+
+/-- general coherence of a transaction with frames: every step / group is coherent where it runs, and a group that FAILS
+— at any point, after any number of completed keeper-level calls — leaves an origin cache that agrees with the store the
+revert restores -/
+def CoherentXG : List XStep → TxSt → Prop
+  | [], _ => True
+  | .plain st :: rest, s =>
+    CoherentTx [st] s ∧
+    match runTx [st] s with
+    | some s1 => CoherentXG rest s1
+    | none => True
+  | .attempt g :: rest, s =>
+    CoherentTx g s ∧
+    match runTxF g s with
+    | (s1, true) => CoherentXG rest s1
+    | (sf, false) => OriginAgrees s.o sf.o ∧ CoherentXG rest ⟨s.o.revertTo sf.o, s.esc⟩
+
+def coherentXGB : List XStep → TxSt → Bool
+  | [], _ => true
+  | .plain st :: rest, s =>
+    coherentTxB [st] s &&
+    match runTx [st] s with
+    | some s1 => coherentXGB rest s1
+    | none => true
+  | .attempt g :: rest, s =>
+    coherentTxB g s &&
+    match runTxF g s with
+    | (s1, true) => coherentXGB rest s1
+    | (sf, false) => originAgreesB s.o sf.o && coherentXGB rest ⟨s.o.revertTo sf.o, s.esc⟩
+
 /-! ### line protocol: `mixx <kind> <mixer> <sink> <module> <supply> <allowance> <escrow> <holder> <holderAllowance> <word>*`
 
 accounts as in `mix`, plus 4 = a user who holds tokens and has approved the mixer (`holderAllowance` = allowance(4 → 0)).
